@@ -79,6 +79,7 @@ def cases(tier):
     yield {"k": "unwritable"}
 
 
+BIG = "\t.blkb 177777\n\t.blkb 177777\n\tnop\n"
 SWEEP = {
     "valid": [],
     "warn-default": ["w-implicit-operand"],
@@ -242,6 +243,11 @@ def check(case, r, tier):
             ("o-bad-with-make", prog + "make_raw \"a.raw\"\n", ["-o", "nodir/x.bin"], ["a.raw"]),
             ("o-bad-alone", prog, ["-o", "nodir/x.bin"], []),
             ("lst-bad", prog, ["-o", "x.bin", "--lst"], ["x.bin"]),
+            # an image too long for the 16-bit length field of bin / tape headers
+            ("oversize-o-bin", BIG, ["-o", "x.bin"], ["x.bin"]),
+            ("oversize-make-bin", BIG + "make_bin\n", [], ["m.bin"]),
+            ("oversize-make-wav", BIG + "make_turbo_wav\n", ["--lst"], ["m.wav"]),
+            ("oversize-wav-then-raw", BIG + "make_wav\nmake_raw \"big.raw\"\n", [], ["m.wav", "big.raw"]),
         ]
         for name, text, oargs, others in variants:
             for fmt in FORMATS:
